@@ -22,6 +22,7 @@ type Engine struct {
 	inlineMax   int
 	docSamples  []string
 	mapSortMemo map[string]string
+	activeProp  string // when set, only clauses serving this property are used (assumed and checked)
 }
 
 // funcKey gives the contract key of an SSA function.
@@ -558,6 +559,7 @@ func (f *Frame) load(p Val, h *Heap, reach string, pos token.Pos) Val {
 	}
 	v := f.en.mkVal(lt, f.vc.define(f.prefix+"ld", f.en.u.sortOf(lt), t))
 	f.vc.assume(implies(reach, f.en.typeFacts(lt, v.E, h.now)))
+	f.sigRead(a, v, reach, pos)
 	return v
 }
 
@@ -1148,4 +1150,37 @@ func (en *Engine) astWfAssumed(from types.Type, pt *types.Pointer) bool {
 		return false
 	}
 	return n.Obj().Pkg().Name() == "ast" && en.u.repoPkgs[n.Obj().Pkg().Path()]
+}
+
+// sigRead: C15 "decision reads are on significant tokens". In functions whose contract carries
+// the sigreads directive every read of Token.TokenType must see a token that is neither
+// whitespace nor a comment.
+func (f *Frame) sigRead(a *Addr, v Val, reach string, pos token.Pos) {
+	if !f.top || f.ct == nil || f.ct.SigReadProps == nil || a.Comp != "|H ast.Token.TokenType|" || reach == "false" {
+		return
+	}
+	if f.en.activeProp != "" && !hasProp(f.ct.SigReadProps, f.en.activeProp) {
+		return
+	}
+	ws, ok1 := f.en.constOf("ast", "WS")
+	cm, ok2 := f.en.constOf("ast", "COMMENT")
+	if !ok1 || !ok2 {
+		f.vc.errorf("sigreads: token constants not found")
+		return
+	}
+	goal := implies(reach, and(not(eq(v.E, ws)), not(eq(v.E, cm))))
+	f.vc.oblige(f.vc.siteName("sigread"), "assert", goal, f.ct.SigReadProps, f.where(pos), "decision read of a token type must see a significant token (not WS/COMMENT)")
+}
+
+func (en *Engine) constOf(pkg, name string) (string, bool) {
+	sp := en.pkgs[pkg]
+	if sp == nil {
+		return "", false
+	}
+	c, ok := sp.Pkg.Scope().Lookup(name).(*types.Const)
+	if !ok {
+		return "", false
+	}
+	n, ok := constant.Int64Val(c.Val())
+	return num(n), ok
 }
